@@ -215,9 +215,16 @@ class Ctx:
         return U.Member(m.N, m.G, m.ranks, m.parents, fl, m.grid, m.squash, m.timescale)
 
     def tables(self, mask):
-        tc = self._tables.get(mask)
+        # ONE TableCollection per structure, re-flagged IN PLACE when another sample set is wanted: whatever
+        # an earlier ibd_segments() call remembered about the samples must not survive the edit
+        import numpy as np
+
+        tc = self._tables.get("tc")
         if tc is None:
-            tc = self._tables[mask] = self.member(mask).tables()
+            tc = self._tables["tc"] = self.member(mask).tables()
+        elif self._tables.get("mask") != mask:
+            tc.nodes.flags = np.array([(mask >> u) & 1 for u in range(self.N)], dtype=np.uint32)
+        self._tables["mask"] = mask
         return tc
 
     def ts(self, mask):
